@@ -6,6 +6,7 @@ import (
 	"sort"
 	"strings"
 	"sync"
+	"sync/atomic"
 	"testing"
 	"testing/synctest"
 	"time"
@@ -107,23 +108,24 @@ type outcome struct {
 }
 
 type harness struct {
-	errs                       *vk.Errs
-	b                          *batcher.Batcher[int, int]
-	interval                   time.Duration
-	subs                       []*subscriber
-	pending                    map[int]delivery // key -> pending (last value, due)
-	log                        []delivery       // deliveries the model says have happened, in order
-	nextVal                    int
-	loose                      bool // backpressure from a saturated subscriber may be delaying deliveries
-	everLoose                  bool
-	closeIssued, closeReturned bool
-	out                        outcome
-	wg                         sync.WaitGroup
-	caseStr                    string
-	raceOld                    *delivery
-	closeCalls                 int
-	subsMu                     sync.Mutex
-	batchedAt                  map[int]time.Time
+	errs          *vk.Errs
+	b             *batcher.Batcher[int, int]
+	interval      time.Duration
+	subs          []*subscriber
+	pending       map[int]delivery // key -> pending (last value, due)
+	log           []delivery       // deliveries the model says have happened, in order
+	nextVal       int
+	loose         bool // backpressure from a saturated subscriber may be delaying deliveries
+	everLoose     bool
+	closeIssued   bool
+	closeReturned atomic.Bool // set by the Close goroutines, read by the controller
+	out           outcome
+	wg            sync.WaitGroup
+	caseStr       string
+	raceOld       *delivery
+	closeCalls    int
+	subsMu        sync.Mutex
+	batchedAt     map[int]time.Time
 }
 
 // outstanding returns how many model deliveries subscriber s has not yet received.
@@ -142,7 +144,7 @@ func (h *harness) risky() bool {
 }
 
 func (h *harness) settle() bool {
-	if !h.risky() && !(h.closeIssued && !h.closeReturned) {
+	if !h.risky() && !(h.closeIssued && !h.closeReturned.Load()) {
 		synctest.Wait()
 		return true
 	}
@@ -241,7 +243,7 @@ func (h *harness) issue(o op) {
 		var group []*subscriber
 		var chans []chan<- int
 		for k := 0; k <= o.More; k++ {
-			s := &subscriber{ctx: ctx, cancel: cancel, ch: make(chan int, o.Cap), style: o.Style, subAt: time.Now(), firstIdx: len(h.log), dead: h.closeReturned, maybeDead: h.closeIssued, stop: make(chan struct{})}
+			s := &subscriber{ctx: ctx, cancel: cancel, ch: make(chan int, o.Cap), style: o.Style, subAt: time.Now(), firstIdx: len(h.log), dead: h.closeReturned.Load(), maybeDead: h.closeIssued, stop: make(chan struct{})}
 			group = append(group, s)
 			chans = append(chans, s.ch)
 		}
@@ -400,7 +402,7 @@ func (h *harness) issue(o op) {
 					break
 				}
 			}
-			h.closeReturned = true
+			h.closeReturned.Store(true)
 		})
 	}
 }
@@ -706,7 +708,7 @@ func runBat(t *testing.T, c batCase) (out outcome, err error) {
 		if !h.settle() {
 			return
 		}
-		if !h.closeReturned {
+		if !h.closeReturned.Load() {
 			p, _ := vk.SettleStacks()
 			vk.Wedged(fmt.Sprintf("C10 batcher violated: Close did not return after every stalled subscriber had left (goroutines parked on a mutex: %d)\ncase: %s", p.OnMutex, h.caseStr))
 		}
@@ -727,7 +729,10 @@ func runBat(t *testing.T, c batCase) (out outcome, err error) {
 				default:
 				}
 			}
-			if !s.dead && !s.maybeDead && !s.closed {
+			s.mu.Lock()
+			isClosed := s.closed
+			s.mu.Unlock()
+			if !s.dead && !s.maybeDead && !isClosed {
 				errs.Failf("after Close returned the channel of subscriber s%d (%s) is not closed", i, s.style)
 				return
 			}
